@@ -277,6 +277,49 @@ Proof.
     + destruct Hok as [r [H1 _]]. rewrite H1. exists 0, []. apply wpost_refl; exact Hwf.
 Qed.
 
+(* the two loops (read_exact_to, write_all_from): whatever happens, the handle only advances *)
+Lemma rd_read_exact_to_loop_any fuel count sink m b acc : wf_io b ->
+  exists k, adv k b (snd (rd_read_exact_to_loop fuel count sink m b acc)) /\
+            wf_io (snd (rd_read_exact_to_loop fuel count sink m b acc)).
+Proof.
+  revert count b acc; induction fuel as [|f IH]; intros count b acc Hwf; cbn [rd_read_exact_to_loop].
+  - exists 0. split; [apply adv_0|exact Hwf].
+  - destruct (count =? 0); [exists 0; split; [apply adv_0|exact Hwf]|].
+    destruct (io_read_any count sink m b Hwf) as [k [Ha Hw]].
+    destruct (io_read count sink m b) as [r b1]. cbn [snd] in Ha, Hw.
+    destruct r as [n data|e|]; try (exists k; cbn [snd]; split; assumption).
+    destruct n as [|pn]; [exists k; cbn [snd]; split; assumption|].
+    destruct (IH (count - N.pos pn) b1 (acc ++ data) Hw) as [k2 [Ha2 Hw2]].
+    exists (k + k2). split; [eapply adv_trans; eauto|exact Hw2].
+Qed.
+
+Lemma wpost_intro_let (P : res * mem * dirty * iobuf -> Prop) x : P x -> let '(r, m', d', b') := x in P (r, m', d', b').
+Proof. destruct x as [[[r m'] d'] b']. auto. Qed.
+
+Lemma vw_write_all_from_loop_any fuel count src m d b : wf_io b ->
+  exists k log, let '(r, m', d', b') := vw_write_all_from_loop fuel count src m d b in wpost m d b k log m' d' b'.
+Proof.
+  revert count src m d b; induction fuel as [|f IH]; intros count src m d b Hwf; cbn [vw_write_all_from_loop].
+  - exists 0, []. apply wpost_refl; exact Hwf.
+  - destruct (count =? 0); [exists 0, []; apply wpost_refl; exact Hwf|].
+    destruct (vw_write_from_any count src m d b Hwf) as [k [log H]].
+    destruct (vw_write_from count src m d b) as [[[r m1] d1] b1].
+    destruct r as [n data|e|]; try (exists k, log; exact H).
+    destruct n as [|pn]; [exists k, log; exact H|].
+    pose proof H as [_ [W1 _]].
+    destruct (IH (count - N.pos pn) (option_map (skipn (N.to_nat (N.pos pn))) src) m1 d1 b1 W1) as [k2 [log2 H2]].
+    destruct (vw_write_all_from_loop f (count - N.pos pn) (option_map (skipn (N.to_nat (N.pos pn))) src) m1 d1 b1) as [[[r2 m2] d2] b2].
+    exists (k + k2), (log ++ log2). eapply wpost_trans; eauto.
+Qed.
+
+Lemma vw_write_all_from_any count src m d b : wf_io b ->
+  exists k log, let '(r, m', d', b') := vw_write_all_from count src m d b in wpost m d b k log m' d' b'.
+Proof.
+  intro Hwf. unfold vw_write_all_from. destruct (avail b <? count).
+  - exists 0, []. apply wpost_refl; exact Hwf.
+  - apply vw_write_all_from_loop_any; exact Hwf.
+Qed.
+
 (* ------------------------------------------------------------------ the machine *)
 Definition wf_st (st : vstate) : Prop := Forall wf_io (v_rd st) /\ Forall wf_io (v_wr st).
 
@@ -368,7 +411,7 @@ Qed.
 Lemma vstep_post op st : wf_st st ->
   exists log rlog, step_post st (snd (vstep op st)) log rlog.
 Proof.
-  intros Hwf. pose proof Hwf as [Hr Hw]. destruct op as [i n|i n|i count sink|i off|i data|i datas|i count src|i off|i];
+  intros Hwf. pose proof Hwf as [Hr Hw]. destruct op as [i n|i n|i count sink|i off|i count sink|i count src|i data|i datas|i count src|i off|i];
     cbn [vstep].
   - destruct (nth_error (v_rd st) i) as [b|] eqn:E; [|exists [], []; apply step_post_refl; exact Hwf].
     pose proof (nth_error_Forall _ _ _ _ Hr E) as Hb.
@@ -396,6 +439,16 @@ Proof.
       * rewrite live_app. unfold live at 2. cbn [map concat]. rewrite app_nil_r.
         eapply Permutation_trans; [apply Permutation_app_comm|].
         eapply live_set_nth; [exact E|]. eapply split_perm; eauto.
+  - destruct (nth_error (v_rd st) i) as [b|] eqn:E; [|exists [], []; apply step_post_refl; exact Hwf].
+    pose proof (nth_error_Forall _ _ _ _ Hr E) as Hb. unfold rd_read_exact_to.
+    destruct (rd_read_exact_to_loop_any (S (N.to_nat count)) count sink (v_mem st) b [] Hb) as [k [Ha Hwf']].
+    destruct (rd_read_exact_to_loop (S (N.to_nat count)) count sink (v_mem st) b []) as [r b'] eqn:E2. cbn [snd] in *.
+    eexists [], _. eapply step_post_reader; eauto.
+  - destruct (nth_error (v_wr st) i) as [b|] eqn:E; [|exists [], []; apply step_post_refl; exact Hwf].
+    pose proof (nth_error_Forall _ _ _ _ Hw E) as Hb.
+    destruct (vw_write_all_from_any count src (v_mem st) (v_dirty st) b Hb) as [k [log H]].
+    destruct (vw_write_all_from count src (v_mem st) (v_dirty st) b) as [[[r m'] d'] b']. cbn [snd].
+    exists log, []. eapply step_post_writer; eauto.
   - destruct (nth_error (v_wr st) i) as [b|] eqn:E; [|exists [], []; apply step_post_refl; exact Hwf].
     pose proof (nth_error_Forall _ _ _ _ Hw E) as Hb.
     destruct (vw_write_any data (v_mem st) (v_dirty st) b Hb) as [k [log H]].
@@ -601,16 +654,17 @@ Qed.
 
 (* operations that are not writes change neither memory nor the dirty log *)
 Definition is_write_op (op : vop) : bool :=
-  match op with WWrite _ _ | WWriteV _ _ | WWriteFrom _ _ _ => true | _ => false end.
+  match op with WWrite _ _ | WWriteV _ _ | WWriteFrom _ _ _ | WWriteAllFrom _ _ _ => true | _ => false end.
 Lemma nonwrite_keeps op st : is_write_op op = false ->
   v_mem (snd (vstep op st)) = v_mem st /\ v_dirty (snd (vstep op st)) = v_dirty st.
 Proof.
-  destruct op as [i n|i n|i count sink|i off|i data|i datas|i count src|i off|i]; cbn [is_write_op vstep];
+  destruct op as [i n|i n|i count sink|i off|i count sink|i count src|i data|i datas|i count src|i off|i]; cbn [is_write_op vstep];
     intro H; try discriminate.
   - destruct (nth_error (v_rd st) i); [|auto]. destruct (rd_read n (v_mem st) i0). cbn. auto.
   - destruct (nth_error (v_rd st) i); [|auto]. destruct (rd_read_exact n (v_mem st) i0). cbn. auto.
   - destruct (nth_error (v_rd st) i); [|auto]. destruct (io_read count sink (v_mem st) i0). cbn. auto.
   - destruct (nth_error (v_rd st) i); [|auto]. destruct (io_split off i0) as [[a o]|]; cbn; auto.
+  - destruct (nth_error (v_rd st) i); [|auto]. destruct (rd_read_exact_to count sink (v_mem st) i0). cbn. auto.
   - destruct (nth_error (v_wr st) i); [|auto]. destruct (io_split off i0) as [[a o]|]; cbn; auto.
   - destruct (nth_error (v_wr st) i); cbn; auto.
 Qed.
